@@ -945,3 +945,85 @@ func (t *Term) String() string {
 }
 
 var _ = bits.Len64
+
+// Rebuild re-applies t's operator to new arguments through the folding constructors.
+func Rebuild(t *Term, a []*Term) *Term {
+	switch t.Op {
+	case OpNot:
+		return Not(a[0])
+	case OpAnd:
+		return And(a[0], a[1])
+	case OpOr:
+		return Or(a[0], a[1])
+	case OpIte:
+		return Ite(a[0], a[1], a[2])
+	case OpEq:
+		return Eq(a[0], a[1])
+	case OpBVAdd, OpBVSub, OpBVMul, OpBVUDiv, OpBVURem, OpBVSDiv, OpBVSRem, OpBVAnd, OpBVOr, OpBVXor, OpBVShl, OpBVLShr, OpBVAShr:
+		return bvbin(t.Op, a[0], a[1])
+	case OpBVNot:
+		return BVNot(a[0])
+	case OpBVNeg:
+		return BVNeg(a[0])
+	case OpULt, OpULe, OpSLt, OpSLe:
+		return bvcmp(t.Op, a[0], a[1])
+	case OpExtract:
+		return Extract(a[0], t.P1, t.P2)
+	case OpZeroExt:
+		return ZeroExt(a[0], t.Sort.W)
+	case OpSignExt:
+		return SignExt(a[0], t.Sort.W)
+	case OpConcat:
+		return Concat(a[0], a[1])
+	case OpFPAdd, OpFPSub, OpFPMul, OpFPDiv:
+		return fpbin(t.Op, a[0], a[1])
+	case OpFPNeg:
+		return FPNeg(a[0])
+	case OpFPLt, OpFPLe, OpFPEq:
+		return fpcmp(t.Op, a[0], a[1])
+	case OpFPIsNaN:
+		return FPIsNaN(a[0])
+	case OpUToFP:
+		return UToFP(a[0])
+	case OpSToFP:
+		return SToFP(a[0])
+	case OpFPToUBV:
+		return FPToBV(a[0], t.P1, false)
+	case OpFPToSBV:
+		return FPToBV(a[0], t.P1, true)
+	case OpFPFromBits:
+		return FPFromBits(a[0])
+	}
+	r := *t
+	r.Args = a
+	return &r
+}
+
+// Subst rewrites t bottom-up: pin returns a replacement for a node or nil.
+func Subst(t *Term, pin func(*Term) *Term, memo map[*Term]*Term) *Term {
+	if r, ok := memo[t]; ok {
+		return r
+	}
+	var res *Term
+	if r := pin(t); r != nil {
+		res = r
+	} else if len(t.Args) == 0 {
+		res = t
+	} else {
+		changed := false
+		na := make([]*Term, len(t.Args))
+		for i, a := range t.Args {
+			na[i] = Subst(a, pin, memo)
+			if na[i] != a {
+				changed = true
+			}
+		}
+		if changed {
+			res = Rebuild(t, na)
+		} else {
+			res = t
+		}
+	}
+	memo[t] = res
+	return res
+}
